@@ -6,7 +6,7 @@ from .props import (Prop, PROPS, kind_of, toks, entry_of, input_of, member_type,
                     gen_parse_inputs, gen_parse_mixed, gen_builds, ALL_LEAVES, ENTRY_MIN, ENTRY_PT, PT_ENTRY,
                     canon_fir_view, canon_fir_bytes, writes_of, size_n, entry_for_member, has_bad_token, perr_of,
                     hdr_of_view, classes_of, big_members, sdes_pad_sweep, carry_tiles, version_tiles, rpsi_pb_sweep, fmt_sweep,
-                    systematic_members)
+                    systematic_members, max_inputs, trunc_sweep, pad_overflow_sweep, edge_parse_lines)
 
 VARIANT_ENTRY = {'App': 'app', 'Bye': 'bye', 'Rr': 'rr', 'Sdes': 'sdes', 'Sr': 'sr', 'Tfb': 'tfb', 'Pfb': 'pfb',
                  'Unknown': 'unknown'}
@@ -58,6 +58,13 @@ class C09(Prop):
             line = 'parse rr %s' % hx(b2)
             self.must_accept.add(line)
             out.append(line)
+        # the largest packet (length field 0xffff), exact / a word short / a word long; padding counts near 255
+        for line, acc in max_inputs(g):
+            if entry_of(line) in self.FIXED:
+                out.append(line)
+                if acc:
+                    self.must_accept.add(line)
+        out += ['parse %s %s' % (e, hx(b)) for e, b in pad_overflow_sweep(g) if e in self.FIXED]
         return out
     def relevant(self, line, impl, model):
         return kind_of(line) == 'parse' and entry_of(line) in self.FIXED
@@ -355,6 +362,13 @@ class C12(Prop):
                     if mn + 4 * (cnt if e == 'bye' else 0) <= 12:
                         sweep.append(bytes([0x80 | cnt, pt, 0, 2]) + g.rawbytes(8))
                     sweep.append(bytes([0xa0 | cnt, pt, 0, 4]) + g.rawbytes(12) + bytes([0, 0, 0, 4]))
+        sweep += trunc_sweep(g)
+        for l, _ in max_inputs(g):
+            # the largest packets: generic parser and the typed parser the type byte names only (the reference SDES
+            # tokeniser of the spec side is quadratic in the number of chunks)
+            if entry_of(l) == 'packet':
+                b = input_of(l)
+                out += [l, 'parse %s %s' % (PT_ENTRY.get(b[1], 'unknown'), hx(b))]
         for b in sweep:
             out.append('parse packet %s' % hx(b))
             for t in self.ALL:
@@ -885,6 +899,55 @@ class C16(Prop):
 
 # ------------------------------------------------------------------ C19 third-party types on the helpers
 
+def helper_cases():
+    """direct calls of the public writer helpers (write_padding_unchecked, write_header_unchecked, check_padding)
+    on caller-supplied buffers that are exact, longer (a scratch or MTU-sized buffer) and too short"""
+    out = []
+    for pad in (0, 1, 3, 4, 8, 12, 252, 255):
+        for ln in sorted(set([0, max(pad - 1, 0), pad, pad + 1, pad + 4, pad + 64, 1500])):
+            for fill in ('aa', '00'):
+                out.append('helper pad %d a%d:%s' % (pad, ln, fill))
+    for pt in (0, 77, 192, 199, 207, 210, 242, 255):
+        for pad in (0, 4, 252):
+            for cnt in (0, 1, 31):
+                for ln in (3, 4, 8, 12, 260, 1500):
+                    out.append('helper hdr %d %d %d a%d:55' % (pt, pad, cnt, ln))
+    for ln in (65536, 65540, 262140, 262144):
+        out.append('helper hdr 199 0 0 a%d:55' % ln)
+    for p in range(0, 256):
+        out.append('helper chk %d' % p)
+    return out
+
+def helper_oracle(line, impl):
+    t = toks(line)
+    w = S.parse(impl.get('w', '()'))
+    if t[1] == 'chk':
+        p = int(t[2])
+        want = '(ok unit)' if p % 4 == 0 else '(err (InvalidPadding #%x))' % p
+        return [] if ser(w) == want else ['check_padding(%d) returned %s, expected %s' % (p, ser(w)[:80], want)]
+    ls, fill = t[-1].split(':')
+    ln, fill = int(ls[1:]), int(fill, 16)
+    if not (isinstance(w, list) and len(w) == 2):
+        return ['malformed helper observation']
+    r, b = ser(w[0]), S.hexbytes(w[1])
+    if t[1] == 'pad':
+        pad = int(t[2])
+        if ln < pad:
+            return []           # documented panic precondition: the buffer is not large enough
+        want = (bytes(pad - 1) + bytes([pad]) if pad else b'') + bytes([fill]) * (ln - pad)
+        if r != '(ok %d)' % pad or b != want:
+            return ['write_padding_unchecked(%d) on a %d-byte buffer returned %s and left %s, expected %d and %s'
+                    % (pad, ln, r, b.hex()[:80] + ('..' + b.hex()[-16:] if len(b) > 40 else ''), pad, want.hex()[:80])]
+        return []
+    pt, pad, cnt = int(t[2]), int(t[3]), int(t[4])
+    if ln < 4:
+        return []
+    want = bytes([0x80 | (0x20 if pad else 0) | cnt, pt]) + ((ln // 4 - 1) & 0xffff).to_bytes(2, 'big') + bytes([fill]) * (ln - 4)
+    if r != '(ok 4)' or b != want:
+        return ['write_header_unchecked(type %d, padding %d, count %d) on a %d-byte buffer returned %s and wrote %s, expected %s'
+                % (pt, pad, cnt, ln, r, b[:8].hex(), want[:8].hex())]
+    return []
+
 class C19(Prop):
     name = 'third-party packet types and raw unknown packets interoperate'
     rule = ('unknown-builder and third-party (8 type numbers x 6 minimum lengths) configurations over counts 0..31, '
@@ -897,6 +960,17 @@ class C19(Prop):
         out = ['build e0:aa ' + m for m in big_members(g, ['unk', 'custom'], tier)]
         # a third-party packet above 64 KiB inside a compound
         out.append('build e0:aa compound 2 rr 0 1 0 custom 199 4 0 0 %s' % ('00' * 65536))
+        out += helper_cases()
+        # the largest packet the length field can announce (65536 words), raw and third-party
+        out.append('build e0:aa unk 0 199 3 %s' % ('00' * (262144 - 4)))
+        out.append('build e0:aa custom 207 4 1 8 %s' % ('00' * (262144 - 12)))
+        # a compound that consists of exactly one third-party / raw packet, down to the bare 4-byte header
+        for pt in (0, 77, 192, 199, 207, 255):
+            for cnt in (0, 1, 31):
+                for pl, pad in (('-', 0), ('-', 4), ('01020304', 0), ('01020304', 8)):
+                    out.append('build e0:aa compound 1 unk %d %d %d %s' % (pad, pt, cnt, pl))
+                    out.append('build e0:aa compound 1 custom %d 4 %d %d %s' % (pt, cnt, pad, pl))
+                out.append('build e0:aa compound 2 unk 0 %d %d - custom %d 4 %d 0 -' % (pt, cnt, pt, cnt))
         members = []
         for _ in range(n):
             m = g.custom(valid=not g.chance(0.1)) if g.chance(0.6) else g.unk(valid=not g.chance(0.1))
@@ -920,16 +994,22 @@ class C19(Prop):
                 out.append('parse custom:%d:%d %s' % (pt, mn, hx(b)))
         return out
     def relevant(self, line, impl, model):
+        if kind_of(line) == 'helper':
+            return True
         if kind_of(line) == 'build':
             return member_type(line) in ('unk', 'custom') or (member_type(line) == 'compound' and ('custom' in line or 'unk' in line))
         return kind_of(line) == 'parse' and entry_of(line).startswith('custom')
     def proj(self, line, obs):
+        if kind_of(line) == 'helper':
+            return obs.get('w')
         if kind_of(line) == 'parse':
             return (ok_str(obs.get('r')), obs.get('via_packet'))
         return (obs.get('size'), tuple(writes_of(obs.get('writes'))), obs.get('rt.r'), obs.get('rt.via_packet'),
                 tuple(item_shape(x) for x in (S.parse(obs.get('rt.items', '()')) or [])))
     def oracle(self, line, impl, model):
         fails = []
+        if kind_of(line) == 'helper':
+            return helper_oracle(line, impl)
         if kind_of(line) == 'parse':
             r = impl.get('r', '')
             if ok_str(r) != (model.get('spec.framed') == 'true'):
@@ -967,6 +1047,11 @@ class C19(Prop):
         elif mt == 'compound':
             if not ok_str(impl.get('rt.r')) or 'err' in impl.get('rt.items', '') or has_bad_token(impl.get('rt.items', '')):
                 fails.append('compound with third-party members does not parse back: ' + impl.get('rt.items', '')[:160])
+            else:
+                got = len(S.parse(impl.get('rt.items', '()')) or [])
+                want = len(S.parse(model.get('rt.items', '()')) or [])
+                if got != want:
+                    fails.append('compound with %d embedded packets yields %d when iterated' % (want, got))
         return fails
 
 PROPS['C09'] = C09()
@@ -1022,10 +1107,30 @@ class C20(Prop):
     def cases(self, g, tier, h):
         n = 150 if tier == 'quick' else 5000
         return self.gen(g, n)
+    def fixed_sdes(self):
+        """PRIV items with empty / non-empty prefix and value through every order of prefix() and into_owned(),
+        added by reference and by value (no randomness)"""
+        out = []
+        big = '70' * 253
+        for prefix, value in (('-', '-'), ('6162', '-'), ('-', '63'), ('6162', '63'), (big, '-'), ('61', '62' * 253)):
+            canon = 'build e0:aa sdes 0 1 7 2 8 %s %s 1 - 6e' % (prefix, value)
+            out.append(canon)
+            seqs = [['own'], ['own', 'own']] if prefix == '-' else \
+                   [['prefix ' + prefix, 'own'], ['own', 'prefix ' + prefix], ['prefix 7a7a7a', 'own', 'prefix ' + prefix, 'own'],
+                    ['prefix ' + prefix]]
+            for ops in seqs:
+                for ob in ('o', 'b'):
+                    for wrap in ('d', 'pbq'):
+                        hl = 'hist %s sdes chunk 7 2 8 %s %s %d %s 1 6e %s 1 own end' % (wrap, value, ob, len(ops), ' '.join(ops), ob)
+                        self.canon[hl] = (canon, wrap)
+                        out.append(hl)
+        return out
     def gen(self, g, n, kinds=None):
         out = []
         allk = ['sr', 'rr', 'app', 'bye', 'sdes', 'unk', 'fb', 'fb', 'bye', 'sdes']
         pool = [k for k in allk if kinds is None or k in kinds] or allk
+        if kinds is None or 'sdes' in kinds:
+            out += self.fixed_sdes()
         for _ in range(n):
             k = g.pick(pool)
             pad = g.pad(valid=not g.chance(0.05))
